@@ -22,18 +22,24 @@ MANIFEST = {
              'Correspondence: API-level differential runs of join_inner/left/right/outer, set_index, set_index_hierarchy, unset_index, relabel_shift_in/out (both axes), '
              'pivot_stack, pivot_unstack, pivot through the public interface over enumerated block layouts, with the implementation model M and the specification S both '
              'evaluated inside Coq on the same inputs; kernel-level runs of pivot_index_map and extrapolate_column_fields.'),
-    'note': ('Trusted: Coq kernel; the hand-written models coq/SF/Rel*.v (tied to /repo only by the differential runs of this check, no translated kernel); the harness plumbing '
-             'that turns a Frame into rows / named columns / labels split by the depth mask; the NumPy cast oracle np.array([fill], dtype=column dtype) used by the pivot_unstack '
-             'model (computed by NumPy itself per case). Partial: the non-composite join path is proved only for inner and guarded left joins (right/outer: model + correspondence '
-             '+ refuted witness only); the M = S theorems speak about rows/columns as lists, block layouts are covered by enumeration in the correspondence, not by a theorem; '
-             'dtypes of results are not compared (cells are compared as Python values); np.unique / iter_group sort order is a model parameter (Permutation hypothesis); '
-             'rehierarch and set_index_hierarchy(reorder_for_hierarchy=True) are only observed (row multiset), not modelled. Three known findings are listed in known/C20.jsonl; a fourth (pivot_unstack cast the fill into the source dtype) is repaired in /repo 8198989 and kept as a regression stratum; C20_unstack_refines is stated over the flag regenerated from the source, so reverting the repair breaks it.'),
+    'note': ('Trusted: Coq kernel; the hand-written models coq/SF/Rel*.v (tied to /repo by the differential runs of this check and, for four decisions, by constants regenerated '
+             'from the source on every run: composite_index defaults + join-type dispatch, the pivot_unstack dtype rule, the two pivot shortcuts that keep a one-row group '
+             'away from func); the harness plumbing that turns a Frame into rows / named columns / labels split by the depth mask and that normalises slice / Boolean / '
+             'ndarray / negative-depth arguments for the model; the NumPy cast oracle np.array([fill], dtype=column dtype) of the pivot_unstack model. Partial: the '
+             'non-composite join path is proved only for inner and guarded left joins (right/outer: model + correspondence + refuted witness only); the M = S theorems '
+             'speak about rows/columns as lists, block layouts / FrameGO / FrameHE receivers / unsigned, datetime64, bytes, object-with-None dtypes are covered by the '
+             'correspondence strata, not by a theorem; dtypes of results are not compared (cells are compared as Python values); np.unique / iter_group sort order is a '
+             'model parameter (Permutation hypothesis); Frame.rehierarch and set_index_hierarchy(reorder_for_hierarchy=True) are checked against the specification only '
+             '(cells stay at their reordered labels / rows stay whole), not modelled; join keys of different datetime64 units, label equality of 1 / 1.0 / True, '
+             'index_constructor(s) arguments, and requests whose result labels are not tree-ordered (IndexHierarchy limitation, skipped by construction of the input) are '
+             'outside the oracle. Five known findings are listed in known/C20.jsonl; a sixth (pivot_unstack cast the fill into the source dtype) is repaired in /repo '
+             '8198989 and kept as a regression stratum.'),
     'technique': 'refinement of an implementation model to a relational specification (Coq) + differential runs of both inside Coq',
 }
 PROPERTY_FILES = ['Properties/C20.v']
 REFUTED_FILES = ['Refuted/C20.v']
-MODEL_FILES = ['Gen/Gen_c20.v', 'SF/RelJoin.v', 'SF/RelJoinVal.v', 'SF/RelShift.v', 'SF/RelShiftVal.v', 'SF/RelStack.v', 'SF/RelStackVal.v', 'SF/RelStackGenVal.v', 'SF/RelPivot.v', 'SF/RelPivotVal.v', 'Proofs/RelExamples.v']
-IMPORTS = 'Require Import SF.Prelude SF.Dtype SF.Value Gen.Gen_c20 SF.RelJoin SF.RelJoinVal SF.RelShift SF.RelShiftVal SF.RelStack SF.RelStackVal SF.RelStackGenVal SF.RelPivot SF.RelPivotVal.'
+MODEL_FILES = ['Gen/Gen_c20.v', 'SF/RelJoin.v', 'SF/RelJoinVal.v', 'SF/RelShift.v', 'SF/RelShiftVal.v', 'SF/RelStack.v', 'SF/RelStackVal.v', 'SF/RelStackGenVal.v', 'SF/RelPivot.v', 'SF/RelPivotVal.v', 'SF/RelPivotGenVal.v', 'Proofs/RelExamples.v']
+IMPORTS = 'Require Import SF.Prelude SF.Dtype SF.Value Gen.Gen_c20 SF.RelJoin SF.RelJoinVal SF.RelShift SF.RelShiftVal SF.RelStack SF.RelStackVal SF.RelStackGenVal SF.RelPivot SF.RelPivotVal SF.RelPivotGenVal.'
 # the specification checkers (every `s=` term) live in files that do NOT depend on Gen/Gen_c20.v: used when the model / generation is broken
 IMPORTS_SPEC_ONLY = 'Require Import SF.Prelude SF.Dtype SF.Value SF.RelJoin SF.RelJoinVal SF.RelShift SF.RelShiftVal SF.RelStack SF.RelStackVal SF.RelPivot SF.RelPivotVal.'
 RULE = ('exhaustive strata: every key assignment of <=2 (quick) / <=3 (thorough) rows per side over two key values x 4 join types x composite on/off; one many-to-many '
@@ -43,7 +49,7 @@ RULE = ('exhaustive strata: every key assignment of <=2 (quick) / <=3 (thorough)
         '(refusal); pivot_stack over flat / rectangular / ragged / depth-3 columns x every depth selection x 6 fill values, each followed by pivot_unstack of the new depths '
         '(round trip); pivot_unstack over rectangular and ragged indices; joins on 2 and 3 key fields with the columns stored in a permuted order and left_columns / right_columns named in permuted orders, independently per side, key columns over one shared domain (pairing is by NAME order, not position); random streams for joins (1-2 key fields from columns and/or index depths, auto / disjoint / '
         'overlapping / equal / hierarchical labels, fills of other types, 4 template pairs, composite_index_fill_value) and pivots (1-2 index / 0-2 column / 1-2 data fields, '
-        'function maps). Malformed stream: absent keys, depth out of range, colliding output names, non-unique / non tree-ordered index requests. A case is non-trivial when '
+        'function maps). Routes added from coverage: FrameGO / FrameHE receivers and arguments; unsigned, datetime64, bytes, object-None, NaN, int-vs-float, bool-vs-int, str-vs-int join keys; slice / Boolean / ndarray / Index selections for relabel_shift_in, set_index_hierarchy and join key columns; negative depth levels; hierarchical OPPOSITE axis and grow-only columns with a pending append for the shifts; unset_index(consolidate_blocks=True); pivot with data_fields omitted and typed fields; Frame.rehierarch on both axes. Malformed stream: joins without a key or with keys of different widths, pivot on absent fields or with nothing left for data, invalid axis, rehierarch of a flat axis, absent keys, depth out of range, colliding output names, non-unique / non tree-ordered index requests. A case is non-trivial when '
         'both join sides have rows / a pivot pair repeats / a frame has >1 column; distinct = distinct JSON of the case description.')
 ASSUMPTIONS = ['labels of one index are unique and compared by hash/== (C02); generators never mix 1 / 1.0 / True as labels',
                'key cells are compared as Python values (numpy == on the coerced key arrays agrees with Python == on ints, exact floats, bools, strs, None)',
@@ -55,6 +61,8 @@ EXHAUSTIVE = {'quick': False, 'thorough': False}
 TRANSLATED = []
 
 F_JOIN = 'C20-join-noncomposite-label-lookup'
+F_JOIN_BYTES = 'C20-join-fill-coerced-into-bytes-column'
+F_SHIFT_NEG = 'C20-shift-out-negative-depth-index-names'
 
 NAN = float('nan')
 
@@ -156,6 +164,34 @@ def generate(repo):
         if not (isinstance(widen, ast.Call) and getattr(widen.func, 'id', None) == 'resolve_dtype' and isinstance(widen.args[0], ast.Name) and widen.args[0].id == 'dtype'):
             raise ValueError('pivot_unstack.items(): dtype is neither taken from the last group nor widened monotonically')
         unstack_last_group = False
+    # pivot: the two shortcuts that keep a group of one row away from func
+    with open(os.path.join(repo, 'static_frame/core/pivot.py')) as fh:
+        ptree = ast.parse(fh.read())
+    pfuncs = {n.name: n for n in ptree.body if isinstance(n, ast.FunctionDef)}
+
+    def has_len1_shortcut(fn):
+        hits = [n for n in ast.walk(pfuncs[fn]) if isinstance(n, ast.If) and isinstance(n.test, ast.Compare) and isinstance(n.test.left, ast.Call)
+                and getattr(n.test.left.func, 'id', None) == 'len' and isinstance(n.test.ops[0], ast.Eq)
+                and isinstance(n.test.comparators[0], ast.Constant) and n.test.comparators[0].value == 1]
+        calls_func = any(isinstance(n, ast.Call) and getattr(n.func, 'id', None) in ('func', 'func_single') for n in ast.walk(pfuncs[fn]))
+        if not calls_func:
+            raise ValueError(f'{fn} no longer calls the aggregation function')
+        return bool(hits)
+    shortcuts = {fn: has_len1_shortcut(fn) for fn in ('pivot_items', 'pivot_records_items')}
+    if len(set(shortcuts.values())) != 1:
+        raise ValueError(f'pivot_items and pivot_records_items disagree on the single-row shortcut: {shortcuts}')
+    pivot_bypass = shortcuts['pivot_items']
+    uniq_tests = [n for n in ast.walk(funcs['pivot']) if isinstance(n, ast.If) and 'sub_index_labels' in ast.dump(n.test) and "id='set'" in ast.dump(n.test)]
+    if len(uniq_tests) > 1:
+        raise ValueError('Frame.pivot: more than one uniqueness test on sub_index_labels')
+    if uniq_tests:
+        if not uniq_tests[0].orelse or 'pivot_items' in ast.dump(ast.Module(body=uniq_tests[0].orelse, type_ignores=[])):
+            raise ValueError('Frame.pivot: the unique-labels branch no longer takes the raw values')
+        pivot_raw = True
+    else:
+        if 'pivot_items' not in ast.dump(funcs['pivot']):
+            raise ValueError('Frame.pivot no longer aggregates through pivot_items')
+        pivot_raw = False
     b = lambda v: 'true' if v else 'false'
     lines = ['(* GENERATED by tools/sfv/props/c20.py generate() from static_frame/core/frame.py -- do not edit *)',
              'Require Import SF.Prelude.', 'Local Open Scope string_scope.', '',
@@ -166,6 +202,8 @@ def generate(repo):
              'Definition gen_depth_level_default : list (string * Z) := ' + lit.lst([f'({lit.s(f)}, {lit.z(v)})' for f, v in depth]) + '.',
              'Definition gen_join_dispatch : list (string * string) := ' + lit.lst([f'({lit.s(f)}, {lit.s(v)})' for f, v in dispatch]) + '.',
              'Definition gen_unstack_dtype_from_last_group : bool := ' + b(unstack_last_group) + '.',
+             'Definition gen_pivot_single_row_bypasses_func : bool := ' + b(pivot_bypass) + '.',
+             'Definition gen_pivot_unique_group_takes_raw : bool := ' + b(pivot_raw) + '.',
              '',
              'Definition gen_composite (name : string) : bool :=',
              '  match find (fun p => String.eqb name (fst p)) gen_join_composite_default with Some p => snd p | None => false end.',
@@ -176,12 +214,20 @@ def generate(repo):
 # ----------------------------------------------------------------------------- helpers
 def _j(v):
     '''JSON-able view of a value.'''
+    if isinstance(v, np.ndarray):
+        v = lit.array_vals(v)
     if isinstance(v, (list, tuple)):
         return [_j(x) for x in v]
+    if isinstance(v, (np.datetime64, np.timedelta64)):
+        return str(v)
     if isinstance(v, np.generic):
         v = v.item()
+    if isinstance(v, bytes):
+        return 'b:' + v.decode('ascii')
     if isinstance(v, float) and v != v:
         return 'nan'
+    if hasattr(v, 'isoformat'):
+        return v.isoformat()
     return v
 
 
@@ -202,7 +248,11 @@ def _eq(a, b):
 
 
 def col_array(values):
-    '''A 1-D immutable array for one column; mixed classes stay object.'''
+    '''A 1-D immutable array for one column; mixed classes stay object; a ready-made array (unsigned, datetime64, bytes ...) is kept.'''
+    if isinstance(values, np.ndarray):
+        a = values.copy()
+        a.flags.writeable = False
+        return a
     kinds = {type(v) for v in values}
     if kinds <= {int}:
         a = np.array(values, dtype=np.int64)
@@ -222,7 +272,7 @@ def col_array(values):
     return a
 
 
-def build_frame(columns, cols, layout=None, index=None, name=None, index_names=None):
+def build_frame(columns, cols, layout=None, index=None, name=None, index_names=None, cls=None):
     '''columns: labels; cols: list of python lists (one per column); layout from zoo (None: one block per column).'''
     import static_frame as sf
     arrays = [col_array(c) for c in cols]
@@ -232,7 +282,7 @@ def build_frame(columns, cols, layout=None, index=None, name=None, index_names=N
         index = sf.IndexHierarchy.from_labels(index, name=index_names)
     elif index is not None:
         index = sf.Index(index, name=index_names)
-    return zoo.frame_from_columns(arrays, layout, index=index, columns=columns, name=name)
+    return zoo.frame_from_columns(arrays, layout, index=index, columns=columns, name=name, cls=cls)
 
 
 def pick_layout(rng, arrays_dtypes, exhaustive=False):
@@ -311,15 +361,15 @@ def obs_join_lit(f):
     return f'(vjf {lit.lst(idx)} {lit.lst(names)} {lit.lst(cols)})'
 
 
-def join_case(ctx, stratum, jt, composite, spec_l, spec_r, kw, fill, templates, cifv=None, defaults=False):
+def join_case(ctx, stratum, jt, composite, spec_l, spec_r, kw, fill, templates, cifv=None, defaults=False, classes=(None, None), kw_real=None):
     '''spec_x = (columns, cols, layout, index); kw: left_depth_level/left_columns/right_depth_level/right_columns.'''
-    lf = build_frame(spec_l[0], spec_l[1], spec_l[2], spec_l[3])
-    rf = build_frame(spec_r[0], spec_r[1], spec_r[2], spec_r[3])
+    lf = build_frame(spec_l[0], spec_l[1], spec_l[2], spec_l[3], cls=classes[0])
+    rf = build_frame(spec_r[0], spec_r[1], spec_r[2], spec_r[3], cls=classes[1])
     llabels, lrows = frame_rows(lf)
     rlabels, rrows = frame_rows(rf)
     lkeys = [key_of(lab, row, list(spec_l[0]), kw.get('left_depth_level'), kw.get('left_columns')) for lab, row in zip(llabels, lrows)]
     rkeys = [key_of(lab, row, list(spec_r[0]), kw.get('right_depth_level'), kw.get('right_columns')) for lab, row in zip(rlabels, rrows)]
-    call = dict(kw, left_template=templates[0], right_template=templates[1], fill_value=fill, composite_index=composite)
+    call = dict(kw_real if kw_real is not None else kw, left_template=templates[0], right_template=templates[1], fill_value=fill, composite_index=composite)
     if cifv is not None:
         call['composite_index_fill_value'] = cifv
     if defaults:      # only the key selection is passed: every other keyword takes the default read from the source (Gen/Gen_c20.v)
@@ -346,6 +396,11 @@ def join_case(ctx, stratum, jt, composite, spec_l, spec_r, kw, fill, templates, 
     args_s = args.replace('@COMP@', lit.b(composite))     # the spec side never reads the regenerated constants
     args = args.replace('@COMP@', comp_term)
     m_term = f'join_m_ok {args} {out}'
+    # right cells are collected in a Python list per column and handed to FrameGO.__setitem__: next to bytes cells a
+    # non-bytes fill value is coerced to bytes (NaN -> b'nan'); class decided from the input alone
+    if jt in ('left', 'outer') and fill is not None and not isinstance(fill, bytes) and any(a.dtype.kind == 'S' for a in rf._blocks._blocks):
+        tags['finding'] = F_JOIN_BYTES
+        m_term = None
     if aligned is None:          # label coercion by the index union: not modelled
         m_term = None
         ctx.count('join:outer-noncomposite-mixed-label-kinds')
@@ -484,7 +539,7 @@ def join_key_order(ctx):
         perms = list(itertools.permutations(range(nk)))
         combos = list(itertools.product(perms, perms, perms, perms))     # storage L, storage R, named order L, named order R
         if nk == 3 or not exhaustive:
-            combos = rng.sample(combos, ctx.n(16 if nk == 2 else 24, 200))
+            combos = rng.sample(combos, min(len(combos), ctx.n(16 if nk == 2 else 24, 200)))
         for sl, sr, ol, orr in combos:
             for jt in JT:
                 nl, nr = rng.randint(2, 4), rng.randint(2, 4)
@@ -546,7 +601,13 @@ def lframe_lit(f, axis=0):
     if axis == 1:
         f = f.transpose()
     n = len(f.index)
-    names = list(f.index.names)
+    ix = f.index
+    if ix.depth == 1:                      # Index.names stringifies; take the name objects themselves
+        names = [ix.name if ix.name is not None else '__index0__']
+    elif isinstance(ix.name, tuple) and len(ix.name) == ix.depth:
+        names = list(ix.name)
+    else:
+        names = list(ix.names)
     levels = [(names[d], lit.array_vals(f.index.values_at_depth(d))) for d in range(f.index.depth)]
     labels = lit.labels(f.columns)
     cols = [(labels[j], lit.array_vals(f.iloc[:, j].values) if n else []) for j in range(f.shape[1])]
@@ -581,11 +642,11 @@ def apply_op(f, op, axis=0):
     return f.unset_index(names=tuple(op[1]))
 
 
-def shop_case(ctx, stratum, f, op, axis=0, extra=None):
+def shop_case(ctx, stratum, f, op, axis=0, extra=None, call=None, finding=None):
     '''One operation on a real frame; returns (case, result frame or None).'''
     tlit, tdesc = lframe_lit(f, axis)
     try:
-        g = apply_op(f, op, axis)
+        g = call(f) if call is not None else apply_op(f, op, axis)
         out = f'(OkL {lframe_lit(g, axis)[0]})'
         odesc = lframe_lit(g, axis)[1]
     except Exception as e:  # noqa
@@ -598,7 +659,7 @@ def shop_case(ctx, stratum, f, op, axis=0, extra=None):
     if extra:
         desc.update(extra)
     c = Case(stratum, desc, m=f'shop_m_ok {op_lit(op)} {tlit} {out}', s=f'shop_s_ok {op_lit(op)} {tlit} {out}',
-             tags={'op': op[0], 'axis': axis}, nontrivial=f.shape[0] > 0 and f.shape[1] > 0)
+             tags=dict({'op': op[0], 'axis': axis}, **({'finding': finding} if finding else {})), nontrivial=f.shape[0] > 0 and f.shape[1] > 0)
     return c, g
 
 
@@ -786,7 +847,7 @@ def stack_case(ctx, f, depth_level, fill):
     rows, cols, cells = frame_parts(f)
     mask = depth_mask(f.columns.depth, depth_level)
     split_cols = [split_label(c, mask) for c in cols]
-    if not tree_ordered(list(dict.fromkeys(g_ for g_, _ in split_cols))):
+    if not tree_ordered(list(dict.fromkeys(g_ for g_, _ in split_cols))) or not tree_ordered(list(dict.fromkeys(t for _, t in split_cols))):
         ctx.count('stack:skipped-nontree-groups')   # remaining column depths not tree-ordered: IndexHierarchy cannot hold them (outside this property)
         return None, None, None
     arg = sframe_lit(rows, split_cols, cells, split='cols')
@@ -805,7 +866,7 @@ def unstack_case(ctx, f, depth_level, fill, stratum='api:pivot_unstack'):
     rows, cols, cells = frame_parts(f)
     mask = depth_mask(f.index.depth, depth_level)
     split_rows = [split_label(r, mask) for r in rows]
-    if not tree_ordered(list(dict.fromkeys(g_ for g_, _ in split_rows))):
+    if not tree_ordered(list(dict.fromkeys(g_ for g_, _ in split_rows))) or not tree_ordered(list(dict.fromkeys(t for _, t in split_rows))):
         ctx.count('unstack:skipped-nontree-groups')
         return None, None
     arg = sframe_lit(split_rows, cols, cells, split='rows')
@@ -959,11 +1020,12 @@ AGG = {
 NOT_IDEMPOTENT = {'len', 'sum2'}            # f([v]) != v
 
 
-def pivot_case(ctx, stratum, names, cols, layout, index_fields, columns_fields, data_fields, funcs, fill, extra_tags=None):
+def pivot_case(ctx, stratum, names, cols, layout, index_fields, columns_fields, data_fields, funcs, fill, extra_tags=None, omit_data=False, cls=None):
     '''funcs: list of AGG names; one name = a single callable, several = a function map {name: callable}.'''
-    f = build_frame(tuple(names), cols, layout, None)
+    f = build_frame(tuple(names), cols, layout, None, cls=cls)
     n = len(cols[0]) if cols else 0
-    col = lambda nm: cols[names.index(nm)]
+    colvals = [lit.array_vals(col_array(c)) for c in cols]
+    col = lambda nm: colvals[names.index(nm)]
     rows = [(tuple(col(x)[r] for x in index_fields), tuple(col(x)[r] for x in columns_fields), [col(x)[r] for x in data_fields]) for r in range(n)]
     single = len(funcs) == 1
     func = (AGG[funcs[0]][1] if single else {nm: (AGG[nm][1] or np.nansum) for nm in funcs})
@@ -971,7 +1033,11 @@ def pivot_case(ctx, stratum, names, cols, layout, index_fields, columns_fields, 
     ifld = index_fields if len(index_fields) > 1 else index_fields[0]
     cfld = tuple(columns_fields) if len(columns_fields) > 1 else (columns_fields[0] if columns_fields else ())
     dfld = data_fields if len(data_fields) > 1 else data_fields[0]
-    out, g = obs_sframe(lambda: f.pivot(ifld, cfld, dfld, **kw))
+    out, g = obs_sframe((lambda: f.pivot(ifld, cfld, **kw)) if omit_data else (lambda: f.pivot(ifld, cfld, dfld, **kw)))
+    if omit_data:
+        ctx.count('pivot:data-fields-omitted')
+    if cls is not None:
+        ctx.count(f'pivot:class={cls.__name__}')
     show_d = len(data_fields) > 1 or not columns_fields
     show_f = not single
     rows_lit = lit.lst([f'(vpr {_tl(i)} {_tl(c)} {lit.vlist(d)})' for i, c, d in rows])
@@ -1136,6 +1202,274 @@ def reorder_cases(ctx):
 
 
 
+# ----------------------------------------------------------------------------- extension round: routes found by tools/cov_cases.py
+def _refusal_case(ctx, stratum, desc, fn, want, tags):
+    '''A call the interface must refuse: py_fail unless it raises one of `want` (decided on the Python side).'''
+    try:
+        out = fn()
+        got = 'returned ' + type(out).__name__
+        ok = False
+    except Exception as e:  # noqa
+        got = type(e).__name__
+        ok = lit.err_class(e) in want or type(e).__name__ in want
+    ctx.count(stratum)
+    return Case(stratum, dict(desc, observed=got, expected_refusal=sorted(want)), py_fail=None if ok else f'expected a refusal {sorted(want)}, {got}', tags=tags,
+                nontrivial=True)
+
+
+def join_variants(ctx):
+    '''FrameGO / FrameHE receivers and arguments; key columns of unsigned, datetime64, bytes, object-with-None, NaN-bearing float
+    dtypes; int keys against float keys; str keys against int keys (nothing matches).'''
+    rng = ctx.rng
+    D = lambda s: np.datetime64(s)
+    pools = {
+        'uint8': lambda vs: np.array(vs, dtype=np.uint8), 'uint64': lambda vs: np.array(vs, dtype=np.uint64), 'int8': lambda vs: np.array(vs, dtype=np.int8),
+    }
+    key_sets = [
+        ('uint8', pools['uint8']([1, 2, 1, 3]), pools['uint8']([1, 1, 4])),
+        ('uint64-vs-int8', pools['uint64']([1, 2, 3]), pools['int8']([3, 1, 1])),
+        ('datetime64[D]', np.array([D('2020-01-01'), D('2020-01-02'), D('2020-01-01')]), np.array([D('2020-01-01'), D('2021-05-05')])),
+        ('bytes', np.array([b'a', b'b', b'a']), np.array([b'a', b'c'])),
+        ('object-None', [None, 'a', 'b'], ['a', None, None]),
+        ('float-nan', [NAN, 1.5, 2.5], [NAN, 2.5]),
+        ('int-vs-float', [1, 2, 3], [1.0, 3.0, 2.5]),
+        ('bool-vs-int', [True, False], [1, 0, 2]),
+        ('str-vs-int', ['a', 'b'], [1, 2]),
+    ]
+    for name, lk, rk in key_sets:
+        nl, nr = len(lk), len(rk)
+        for jt in JT:
+            spec_l = (('k', 'x'), [lk, [10 + i for i in range(nl)]], None, None)
+            spec_r = (('k', 'y'), [rk, np.array([20 + i for i in range(nr)], dtype=np.uint16)], None, list('wxyz')[:nr])
+            ctx.count(f'join:keys={name}')
+            try:
+                fill = NAN if name == 'bytes' else rng.choice([None, -1, NAN])     # bytes: the known finding needs a non-bytes fill every run
+                yield join_case(ctx, 'api:join-key-dtypes', jt, True, spec_l, spec_r, {'left_columns': 'k', 'right_columns': 'k'}, fill, ('L{}', 'R{}'))
+            except ValueError:
+                ctx.count('join:skipped-literal')
+    import static_frame as sf
+    for lcls, rcls in ((sf.FrameGO, sf.Frame), (sf.FrameHE, sf.FrameGO), (sf.Frame, sf.FrameHE), (sf.FrameGO, sf.FrameGO)):
+        for jt in JT:
+            for composite in (True, False):
+                nl, nr = rng.randint(1, 4), rng.randint(1, 4)
+                spec_l = (('k', 'x'), [[rng.choice('ab') for _ in range(nl)], [10 + i for i in range(nl)]], None, None)
+                spec_r = (('k', 'y'), [[rng.choice('abc') for _ in range(nr)], [20 + i for i in range(nr)]], None, list('wxyz')[:nr])
+                ctx.count(f'join:class={lcls.__name__}x{rcls.__name__}')
+                yield join_case(ctx, 'api:join-frame-classes', jt, composite, spec_l, spec_r, {'left_columns': 'k', 'right_columns': 'k'}, None, ('L{}', 'R{}'), classes=(lcls, rcls))
+
+
+def join_malformed(ctx):
+    '''Calls Frame._join refuses before looking at any row (frame.py:5758-5770).'''
+    l = build_frame(('k', 'j', 'x'), [['a', 'b'], [1, 2], [5, 6]])
+    r = build_frame(('k', 'j', 'y'), [['a', 'c'], [1, 3], [7, 8]])
+    for jt in JT:
+        call = getattr(l, 'join_' + jt)
+        for what, kw in (('no left key', {'right_columns': 'k'}), ('no right key', {'left_columns': 'k'}), ('no key at all', {}),
+                         ('widths differ', {'left_columns': ['k', 'j'], 'right_columns': 'k'}),
+                         ('widths differ (depth + column against column)', {'left_depth_level': 0, 'left_columns': 'k', 'right_columns': 'k'})):
+            yield _refusal_case(ctx, 'api:join-malformed', {'call': f'l.join_{jt}(r, **kw)', 'kw': _j(kw), 'what': what},
+                                lambda call=call, kw=kw: call(r, left_template='L{}', right_template='R{}', **kw), {'RuntimeError'}, {'op': 'join', 'malformed': what})
+
+
+def rehierarch_cases(ctx):
+    '''Frame.rehierarch (frame.py:3362-3406, container_util.py rehierarch_from_index_hierarchy): the depths of an axis are
+    reordered; every cell stays at its (reordered row label, reordered column label).'''
+    import static_frame as sf
+    rng = ctx.rng
+    ih2 = [('a', 1), ('a', 2), ('b', 1), ('b', 2)]
+    ih2r = [('a', 1), ('a', 2), ('b', 2), ('b', 3), ('c', 1)]
+    ih3 = [('a', 1, 'x'), ('a', 1, 'y'), ('a', 2, 'x'), ('b', 1, 'x'), ('b', 2, 'y')]
+    for cls in (sf.Frame, sf.FrameGO):
+        for ilabels, clabels in ((ih2, ['p', 'q']), (ih2r, ['p']), (ih3, ['p', 'q']), (ih2, ih2r), (['r', 's'], ih3), (ih3, ih2)):
+            n, m = len(ilabels), len(clabels)
+            cols = [[100 * j + i for i in range(n)] if j % 2 == 0 else ['abcdefgh'[(i + j) % 8] for i in range(n)] for j in range(m)]
+            lays = list(zoo.layouts_for([col_array(c).dtype for c in cols]))
+            index = sf.IndexHierarchy.from_labels(ilabels) if isinstance(ilabels[0], tuple) else sf.Index(ilabels)
+            ccls = cls._COLUMNS_HIERARCHY_CONSTRUCTOR if isinstance(clabels[0], tuple) else cls._COLUMNS_CONSTRUCTOR
+            columns = ccls.from_labels(clabels) if isinstance(clabels[0], tuple) else ccls(clabels)
+            f = zoo.frame_from_columns([col_array(c) for c in cols], rng.choice(lays), index=index, columns=columns, cls=cls)
+            idepth, cdepth = f.index.depth, f.columns.depth
+            imaps = [None] + ([list(p) for p in itertools.permutations(range(idepth)) if list(p) != list(range(idepth))] if idepth > 1 else [])
+            cmaps = [None] + ([list(p) for p in itertools.permutations(range(cdepth)) if list(p) != list(range(cdepth))] if cdepth > 1 else [])
+            combos = [(a, b) for a in imaps for b in cmaps if a or b]
+            for imap, cmap in (combos if ctx.tier != 'quick' else rng.sample(combos, min(3, len(combos)))):
+                rows, cls_, cells = frame_parts(f)
+                re_ = lambda lab, mp: tuple(lab[d] for d in mp) if mp else lab
+                want = sframe_lit([re_(r, imap) for r in rows], [re_(c, cmap) for c in cls_], cells)
+                out, g = obs_sframe(lambda: f.rehierarch(index=imap, columns=cmap))
+                ctx.count('rehierarch', f'rehierarch:index={imap}', f'rehierarch:columns={cmap}', f'rehierarch:class={cls.__name__}')
+                desc = {'call': 'f.rehierarch(index=imap, columns=cmap)', 'index_map': imap, 'columns_map': cmap, 'frame': fdesc(f),
+                        'observed': (type(g).__name__ + ': ' + str(g)[:100]) if isinstance(g, Exception) else fdesc(g)}
+                ordered = not isinstance(g, Exception) and tree_ordered([_tup(x) for x in lit.labels(g.index)]) and tree_ordered([_tup(x) for x in lit.labels(g.columns)])
+                yield Case('api:rehierarch', desc, s=f'match {out} with Ok o => vsframe_keyed_eqb {want} o | Err _ => false end',
+                           py_fail=None if (isinstance(g, Exception) or ordered) else 'result labels are not tree-ordered', tags={'op': 'rehierarch'})
+    f = build_frame(('a', 'b'), [[1, 2], [3, 4]], None, ['p', 'q'])
+    yield _refusal_case(ctx, 'api:rehierarch-malformed', {'call': 'f.rehierarch(index=[1,0]) on a depth-1 index'}, lambda: f.rehierarch(index=[1, 0]), {'RuntimeError'}, {'op': 'rehierarch'})
+    yield _refusal_case(ctx, 'api:rehierarch-malformed', {'call': 'f.rehierarch(columns=[1,0]) on depth-1 columns'}, lambda: f.rehierarch(columns=[1, 0]), {'RuntimeError'}, {'op': 'rehierarch'})
+
+
+def shift_opposite_hier(ctx):
+    '''relabel_shift_out / relabel_shift_in when the OPPOSITE axis is hierarchical (its labels are flattened to tuples,
+    frame.py:3330-3345), on FrameGO, and on a grow-only hierarchical columns axis that has pending appends (_recache).'''
+    import static_frame as sf
+    rng = ctx.rng
+    chier = [('a', 1), ('a', 2), ('b', 1)]
+    cols = [[1, 2, 3], [4, 5, 6], ['x', 'y', 'z']]
+    for cls in (sf.Frame, sf.FrameGO):
+        for index, iname in ((None, None), (['p', 'q', 'r'], 'ix'), ([('m', 1), ('m', 2), ('n', 1)], ('g', 'h'))):
+            lay = rng.choice(list(zoo.layouts_for([col_array(c).dtype for c in cols])))
+            idx = None if index is None else (sf.IndexHierarchy.from_labels(index, name=iname) if isinstance(index[0], tuple) else sf.Index(index, name=iname))
+            f = zoo.frame_from_columns([col_array(c) for c in cols], lay, index=idx, columns=cls._COLUMNS_HIERARCHY_CONSTRUCTOR.from_labels(chier), cls=cls)
+            depth = f.index.depth
+            for ds in [[0], list(range(depth))] + ([[1], [1, 0]] if depth > 1 else []):
+                yield shop_case(ctx, 'api:relabel_shift_out-hier-columns', f, ('shift_out', ds, len(ds) > 1 or rng.random() < 0.5))[0]
+            c, g = shop_case(ctx, 'api:relabel_shift_in-hier-columns', f, ('shift_in', [('a', 2)], True))
+            yield c
+            c, g = shop_case(ctx, 'api:relabel_shift_in-hier-columns', f, ('shift_in', [('b', 1), ('a', 1)], True))
+            yield c
+            if g is not None:
+                c2, h = shop_case(ctx, 'api:relabel_shift_out-hier-columns', g, ('shift_out', [depth, depth + 1], True))
+                yield c2
+                if h is not None:
+                    yield roundtrip_case(ctx, 'api:roundtrip-shift', f, h, 'shift_in;shift_out hierarchical columns')
+    # axis 1 with a hierarchical index, and a FrameGO whose hierarchical columns have a pending append
+    g = sf.FrameGO.from_records([(1, 2), (3, 4), (5, 6)], index=sf.IndexHierarchy.from_labels([('m', 1), ('m', 2), ('n', 1)], name=('g', 'h')),
+                                columns=sf.IndexHierarchyGO.from_labels([('a', 'u'), ('a', 'v')], name=('c0', 'c1')))
+    g[('b', 'u')] = [7, 8, 9]          # columns now hold a pending append
+    for ds in ([0], [1], [0, 1]):
+        yield shop_case(ctx, 'api:relabel_shift_out-axis1-hier-index', g, ('shift_out', ds, True), axis=1)[0]
+    g2 = sf.FrameGO.from_records([(1, 2), (3, 4), (5, 6)], index=sf.Index(['p', 'q', 'r'], name='ix'),
+                                 columns=sf.IndexHierarchyGO.from_labels([('a', 'u'), ('a', 'v')], name=('c0', 'c1')))
+    g2[('b', 'u')] = [7, 8, 9]
+    yield shop_case(ctx, 'api:relabel_shift_in-axis1-pending-append', g2, ('shift_in', ['q'], False), axis=1)[0]
+    yield shop_case(ctx, 'api:relabel_shift_in-axis1-pending-append', g2, ('shift_in', ['r', 'p'], True), axis=1)[0]
+    f = build_frame(('a', 'b'), [[1, 2], [3, 4]], None, ['p', 'q'])
+    yield _refusal_case(ctx, 'api:relabel_shift_out-malformed', {'call': 'f.relabel_shift_out(0, axis=2)'}, lambda: f.relabel_shift_out(0, axis=2), {'AxisInvalid'}, {'op': 'shift_out'})
+
+
+def pivot_variants(ctx):
+    '''pivot with data_fields omitted (every unused column), refusals (absent field, nothing left for data), FrameGO / FrameHE
+    receivers, unsigned and datetime64 index / column fields.'''
+    import static_frame as sf
+    rng = ctx.rng
+    D = lambda s: np.datetime64(s)
+    names = ['i', 'c', 'v', 'w']
+    base = [['b', 'a', 'b', 'a', 'c'], ['x', 'y', 'x', 'x', 'y'], [1, 2, 3, 4, 5], [10, 20, 30, 40, 50]]
+    for cls in (sf.Frame, sf.FrameGO, sf.FrameHE):
+        for cf in (['c'], []):
+            for funcs in (['nansum'], ['min', 'max']):
+                lay = rng.choice(list(zoo.layouts_for([col_array(c).dtype for c in base])))
+                yield pivot_case(ctx, 'api:pivot-data-fields-omitted', names, base, lay, ['i'], cf, ['v', 'w'] if cf else ['c', 'v', 'w'][1:], funcs, rng.choice([0, -1, NAN]),
+                                 omit_data=bool(cf), cls=cls)
+    typed = [
+        ('uint8 index field', [np.array([2, 1, 2, 1, 3], dtype=np.uint8), base[1], base[2], base[3]]),
+        ('datetime64 index field', [np.array([D('2020-02-01'), D('2020-01-01'), D('2020-02-01'), D('2020-01-01'), D('2021-01-01')]), base[1], base[2], base[3]]),
+        ('datetime64 column field', [base[0], np.array([D('2020-02-01'), D('2020-01-01'), D('2020-02-01'), D('2020-02-01'), D('2020-01-01')]), base[2], base[3]]),
+        ('uint data fields', [base[0], base[1], np.array(base[2], dtype=np.uint8), np.array(base[3], dtype=np.uint32)]),
+        ('int8 data fields', [base[0], base[1], np.array([-1, 2, -3, 4, 5], dtype=np.int8), np.array(base[3], dtype=np.int16)]),
+    ]
+    for what, cols in typed:
+        for funcs in (['nansum'], ['max'], ['first', 'last']):
+            ctx.count(f'pivot:{what}')
+            try:
+                yield pivot_case(ctx, 'api:pivot-field-dtypes', names, cols, None, ['i'], ['c'], ['v', 'w'], funcs, rng.choice([0, -1]))
+            except ValueError:
+                ctx.count('pivot:skipped-literal')
+    f = build_frame(tuple(names), base)
+    yield _refusal_case(ctx, 'api:pivot-malformed', {'call': "f.pivot('zz', 'c', 'v')"}, lambda: f.pivot('zz', 'c', 'v'), {'ErrorInitFrame'}, {'op': 'pivot'})
+    yield _refusal_case(ctx, 'api:pivot-malformed', {'call': "f.pivot('i', 'zz', 'v')"}, lambda: f.pivot('i', 'zz', 'v'), {'ErrorInitFrame'}, {'op': 'pivot'})
+    yield _refusal_case(ctx, 'api:pivot-malformed', {'call': "f.pivot(['i','c'], ['v','w'])  # nothing left for data"}, lambda: f.pivot(['i', 'c'], ['v', 'w']), {'ErrorInitFrame'},
+                        {'op': 'pivot'})
+
+
+def set_index_variants(ctx):
+    '''set_index / set_index_hierarchy / unset_index on FrameGO / FrameHE and with unsigned, datetime64 and bytes key columns.'''
+    import static_frame as sf
+    D = lambda s: np.datetime64(s)
+    names = ('d', 'u', 'b', 'x')
+    cols = [np.array([D('2020-01-01'), D('2020-01-01'), D('2020-01-02'), D('2021-01-01')]), np.array([1, 2, 1, 1], dtype=np.uint8), np.array([b'p', b'q', b'r', b's']), [5, 6, 7, 8]]
+    for cls in (sf.Frame, sf.FrameGO, sf.FrameHE):
+        f = zoo.frame_from_columns([col_array(c) for c in cols], tuple((1, False) for _ in cols), index=None, columns=names, cls=cls)
+        for op in (('set_index', ['b'], True, None), ('set_index', ['d'], True, None), ('set_index', ['d', 'u'], True, 'list'), ('set_index', ['d', 'u'], False, 'tuple'),
+                   ('set_index', ['u', 'b'], True, 'list'), ('shift_in', ['d', 'u'], True), ('shift_in', ['b'], False)):
+            try:
+                c, g = shop_case(ctx, 'api:set_index-classes-and-dtypes', f, op)
+            except ValueError:
+                ctx.count('shift:skipped-literal')
+                continue
+            yield c
+            if g is not None:
+                c2, h = shop_case(ctx, 'api:set_index-classes-and-dtypes', g, ('unset', []) if op[0] == 'set_index' else ('shift_out', list(range(1, 1 + len(op[1]))), True))
+                yield c2
+                if h is not None and (op[0] == 'shift_in' or op[2]):
+                    yield roundtrip_case(ctx, 'api:roundtrip-set-unset', f, h, f'{op[0]};back on {cls.__name__} with date/unsigned/bytes keys')
+
+
+def argument_kinds(ctx):
+    '''The same operations reached through other argument kinds: slice / Boolean-array / ndarray-of-labels selections for
+    relabel_shift_in, set_index_hierarchy and the join key columns; negative depth levels for relabel_shift_out and
+    pivot_stack / pivot_unstack; unset_index(consolidate_blocks=True).  The model receives the normalised selection.'''
+    import static_frame as sf
+    rng = ctx.rng
+    names = ['k', 'j', 'x', 'y']
+    cols = [['a', 'b', 'c'], [3, 1, 2], [5, 6, 7], [True, False, True]]
+    for cls in (sf.Frame, sf.FrameGO):
+        for index, iname in ((None, None), (['p', 'q', 'r'], 'ix'), ([('m', 1), ('m', 2), ('n', 1)], ('g', 'h'))):
+            lay = rng.choice(list(zoo.layouts_for([col_array(c).dtype for c in cols])))
+            f = build_frame(tuple(names), cols, lay, index, index_names=iname, cls=cls)
+            depth = f.index.depth
+            sels = [('slice', slice('k', 'j'), ['k', 'j']), ('slice', slice('j', 'y'), ['j', 'x', 'y']), ('slice-open', slice(None, 'j'), ['k', 'j']),
+                    ('bool', np.array([True, False, True, False]), ['k', 'x']), ('bool', np.array([False, True, True, False]), ['j', 'x']),
+                    ('ndarray', np.array(['x', 'k']), ['x', 'k']), ('index', sf.Index(['j', 'k']), ['j', 'k'])]
+            for kind, key, resolved in sels:
+                ctx.count(f'argkind:shift_in:{kind}')
+                c, g = shop_case(ctx, 'api:relabel_shift_in-key-kinds', f, ('shift_in', resolved, True), extra={'key_kind': kind}, call=lambda fr, key=key: fr.relabel_shift_in(key))
+                yield c
+                if g is not None:
+                    n = len(resolved)
+                    neg = [-(i + 1) for i in range(n)][::-1]            # the depths just added, counted from the end
+                    ctx.count('argkind:shift_out:negative')
+                    yield shop_case(ctx, 'api:relabel_shift_out-negative-depth', g, ('shift_out', list(range(depth, depth + n)), True), extra={'depth_level': neg},
+                                    call=lambda fr, neg=neg: fr.relabel_shift_out(neg if len(neg) > 1 else neg[0]), finding=F_SHIFT_NEG)[0]
+                if kind in ('slice', 'bool', 'ndarray', 'index') and len(resolved) > 1:
+                    for drop in (True, False):
+                        ctx.count(f'argkind:set_index_hierarchy:{kind}')
+                        c, g2 = shop_case(ctx, 'api:set_index_hierarchy-key-kinds', f, ('set_index', resolved, drop, 'list'), extra={'key_kind': kind},
+                                          call=lambda fr, key=key, drop=drop: fr.set_index_hierarchy(key, drop=drop))
+                        yield c
+                        if g2 is not None:
+                            ctx.count('argkind:unset_index:consolidate')
+                            yield shop_case(ctx, 'api:unset_index-consolidate', g2, ('unset', []), call=lambda fr: fr.unset_index(consolidate_blocks=True))[0]
+            yield shop_case(ctx, 'api:unset_index-consolidate', f, ('unset', ['N0', 'N1'][:depth]), call=lambda fr: fr.unset_index(names=('N0', 'N1')[:fr.index.depth], consolidate_blocks=True))[0]
+            if depth > 1:
+                for neg, pos in ((-1, [depth - 1]), (-2, [depth - 2]), ([-1, -2], [depth - 1, depth - 2])):
+                    yield shop_case(ctx, 'api:relabel_shift_out-negative-depth', f, ('shift_out', pos, True), extra={'depth_level': neg}, call=lambda fr, neg=neg: fr.relabel_shift_out(neg),
+                                    finding=F_SHIFT_NEG if len(pos) < depth else None)[0]
+    # join key columns through slice / Boolean / ndarray selections
+    lcols = [['a', 'a', 'b'], [1, 2, 1], [5, 6, 7]]
+    rcols = [[1, 1, 3], ['a', 'b', 'a'], [50, 60, 70]]
+    for lk, lres in ((slice('k', 'j'), ['k', 'j']), (np.array([True, True, False]), ['k', 'j']), (np.array(['j', 'k']), ['j', 'k'])):
+        for rk, rres in ((np.array(['k', 'j']), ['k', 'j']), (slice('j', 'k'), ['j', 'k']), (np.array([True, True, False]), ['j', 'k'])):
+            for jt in JT:
+                ctx.count('argkind:join-key-columns')
+                kw_real = {'left_columns': lk, 'right_columns': rk}
+                yield join_case(ctx, 'api:join-key-kinds', jt, True, (('k', 'j', 'x'), lcols, None, None), (('j', 'k', 'y'), rcols, None, list('wxy')),
+                                {'left_columns': lres, 'right_columns': rres}, None, ('L{}', 'R{}'), kw_real=kw_real)
+    # negative depth levels for pivot_stack / pivot_unstack
+    h = zoo.frame_from_columns([col_array([1, 2]), col_array([3, 4]), col_array([5, 6]), col_array([7, 8])], ((1, False), (2, True), (1, True)),
+                               index=sf.IndexHierarchy.from_labels([('m', 1), ('n', 1)]),
+                               columns=sf.IndexHierarchy.from_labels([('a', 1, 'x'), ('a', 2, 'x'), ('b', 1, 'x'), ('b', 1, 'y')]))
+    for dl in (-1, -2, -3, [-1, -2], [-3, -1], [0, -1]):
+        c, g, arg = stack_case(ctx, h, dl, -1)
+        if c is not None:
+            yield c
+    hi = h.transpose()
+    for dl in (-1, -2, -3, [-1, -2], [-3, -1], [0, -1]):
+        c, g = unstack_case(ctx, hi, dl, -1)
+        if c is not None:
+            yield c
+
+
 def cases(ctx):
     yield from join_exhaustive(ctx)
     yield from join_layouts(ctx)
@@ -1153,3 +1487,10 @@ def cases(ctx):
     yield from pivot_mixed_index(ctx)
     yield from kernel_cases(ctx)
     yield from reorder_cases(ctx)
+    yield from join_variants(ctx)
+    yield from join_malformed(ctx)
+    yield from rehierarch_cases(ctx)
+    yield from shift_opposite_hier(ctx)
+    yield from pivot_variants(ctx)
+    yield from set_index_variants(ctx)
+    yield from argument_kinds(ctx)
